@@ -30,7 +30,7 @@ META = {
 CFG_NAMES = {"d": "default (debug on)", "x": "debug off", "p": "pass-through custom formatter", "n": "failing custom formatter",
              "a": "custom auto-escape format", "k": "keep_trailing_newline", "t": "trim_blocks+lstrip_blocks",
              "c": "custom delimiters", "s": "strict undefined", "m": "semi-strict undefined", "h": "chainable undefined",
-             "r": "recursion limit 1"}
+             "r": "recursion limit 1", "w": "render_captured_to a writer", "l": "loader-backed, lazily compiled templates"}
 # Every instruction that the code generator emits through `CodeGenerator::add` (location = current line /
 # innermost span) AND that can fail in the VM (tables C14_CODEGEN_ADDS, C14_VM_FALLIBLE, regenerated from the
 # sources on every run).  "own": the generator pushes the construct's own span around the add;
@@ -56,6 +56,106 @@ SPANLESS_CLASS = {
     "EmitRaw": ("benign", "only a write failure of the output (C19)"),
     "GetClosure": ("benign", "fails only on an internal invariant"), "Lookup": ("benign", "lookups do not fail"),
 }
+
+# Table C14_VM_ROWS (regenerated from vm/mod.rs): every fallible expression of an instruction arm.  For each
+# row the planted cases (id prefixes) that make exactly that expression fail; ("structure", why) for rows that
+# describe the helper macros; ("allowed", why) for rows that legitimately leave without location.
+def _cap(op):
+    return {f"CompareAndPreserve|{op}|ctx_ok|undefined_behavior.assert_value_not_undefined": [f"row_cap_{op.lower()}_a__"],
+            f"CompareAndPreserve|{op}|ctx_ok|undefined_behavior.assert_value_not_undefined#2": [f"row_cap_{op.lower()}_b__"]}
+
+
+ROW_CASES = {
+    "macro:recurse_loop||bail|Error::new": ["row_fn_loop_recurse__", "row_fastrecurse_nonrecursive__"],
+    "macro:recurse_loop||bail|Error::new#2": ["row_recurse_other_block"],
+    "macro:recurse_loop||bail|Error::new#3": ["row_recurse_inactive"],
+    "macro:func_binop||ctx_ok|ops::$method": ("structure", "func_binop! expands to ctx_ok!"),
+    "macro:op_binop||ctx_ok|undefined_behavior.assert_value_not_undefined": ("structure", "op_binop! expands to ctx_ok!"),
+    "macro:op_binop||ctx_ok|undefined_behavior.assert_value_not_undefined#2": ("structure", "op_binop! expands to ctx_ok!"),
+    "macro:bail||return_err|err": ("structure", "bail! returns after process_err"),
+    "macro:bail||calls|process_err": ("structure", "bail! calls process_err"),
+    "macro:ctx_ok||bail|err": ("structure", "ctx_ok! bails"),
+    "macro:assert_valid||bail|err": ("structure", "assert_valid! bails"),
+    "pre||ctx_ok|tracker.track": ["out_of_fuel"],
+    "EmitRaw||ok|out.write_str": ("allowed", "write failure of the output sink (C19)"),
+    "Emit||bail|Error::from": ["row_emit_undef__", "strict_print"],
+    "Emit||ctx_ok|write_escaped": ["print_none_top"],
+    "Emit||ctx_ok|state.env.format": ["print_none_top", "print_undef_top"],
+    "Lookup||assert_valid|state.lookup": ["row_lookup_invalid__"],
+    "GetAttr||assert_valid|value": ["row_getattr_invalid__"],
+    "GetAttr||ctx_ok|undefined_behavior.handle_undefined": ["row_getattr_undef__"],
+    "SetAttr||bail|Error::new": ["row_setattr_bad__"],
+    "GetItem||assert_valid|value": ["row_getitem_invalid__"],
+    "GetItem||ctx_ok|undefined_behavior.handle_undefined": ["row_getitem_undef__"],
+    "Slice||bail|Error::from": ["row_slice_undef__"],
+    "Slice||ctx_ok|ops::slice": ["row_slice_zero__"],
+    "MergeKwargs||ctx_ok|Self::merge_kwargs": ["row_mergekwargs__"],
+    "UnpackList||ctx_ok|Self::unpack_list": ["row_unpacklist__", "row_unpacklist_arity__"],
+    "UnpackLists||ctx_ok|list.try_iter": ["row_unpacklists__"],
+    "Add||func_binop|add": ["row_add__"], "Sub||func_binop|sub": ["row_sub__"],
+    "Mul||func_binop|mul": ["row_mul__", "row_mul_overflow__"], "Div||func_binop|div": ["row_div__"],
+    "IntDiv||func_binop|int_div": ["row_intdiv_zero__"], "Rem||func_binop|rem": ["row_rem_zero__"],
+    "Pow||func_binop|pow": ["row_pow__"],
+    "Eq||op_binop|==": ["row_eq_undef__"], "Ne||op_binop|!=": ["row_ne_undef__"], "Gt||op_binop|>": ["row_gt_undef__"],
+    "Gte||op_binop|>=": ["row_gte_undef__"], "Lt||op_binop|<": ["row_lt_undef__"], "Lte||op_binop|<=": ["row_lte_undef__"],
+    "Not||ctx_ok|undefined_behavior.is_true": ["row_not_undef__"],
+    "StringConcat||ctx_ok|undefined_behavior.assert_value_not_undefined": ["row_concat_left__"],
+    "StringConcat||ctx_ok|undefined_behavior.assert_value_not_undefined#2": ["row_concat_right__"],
+    "In||ctx_ok|state.undefined_behavior.assert_iterable": ["row_in_iterable__"],
+    "In||ctx_ok|state.undefined_behavior.assert_value_not_undefined": ["row_in_undef__"],
+    "In||ctx_ok|ops::contains": ["row_in_contains__", "row_notin_contains__"],
+    "CompareAndPreserve|In|NotIn|ctx_ok|undefined_behavior.assert_iterable": ["row_cap_in_iterable__"],
+    "CompareAndPreserve|In|NotIn|ctx_ok|undefined_behavior.assert_value_not_undefined": ["row_cap_in_undef__"],
+    "CompareAndPreserve|In|NotIn|ctx_ok|ops::contains": ["row_cap_in_contains__", "row_cap_notin_contains__", "row_cap_in_contains_mid__"],
+    "Neg||ctx_ok|ops::neg": ["row_neg__"],
+    "PushWith||ctx_ok|state.ctx.push_frame": ["sl_with_push_", "sl_import_push_"],
+    "PushLoop||ctx_ok|Self::push_loop": ["row_pushloop__"],
+    "Iterate||assert_valid|item": ["row_iterate_invalid__"],
+    "JumpIfFalse||ctx_ok|undefined_behavior.is_true": ["row_jump_if_false__"],
+    "JumpIfFalseOrPop||ctx_ok|undefined_behavior.is_true": ["row_jump_if_false_or_pop__"],
+    "JumpIfTrueOrPop||ctx_ok|undefined_behavior.is_true": ["row_jump_if_true_or_pop__"],
+    "PushAutoEscape||ctx_ok|Self::derive_auto_escape": ["row_autoescape__"],
+    "ApplyFilter||ctx_ok|get_or_lookup_local": ["row_filter_unknown__"],
+    "ApplyFilter||ctx_ok|filter.call": ["row_filter_fails__"],
+    "PerformTest||ctx_ok|get_or_lookup_local": ["row_test_unknown__"],
+    "PerformTest||ctx_ok|test.call": ["row_test_fails__"],
+    "CallFunction||bail|Error::new": ["row_super_args"],
+    "CallFunction||ctx_ok|Self::perform_super": ["row_super_call_no_parent", "row_super_call_err"],
+    "CallFunction||bail|Error::new#2": ["row_fn_loop_args__"],
+    "CallFunction||recurse_loop|true": ["row_fn_loop_recurse__"],
+    "CallFunction||ctx_ok|func.call": ["row_fn_fails__", "row_fn_not_callable__"],
+    "CallFunction||bail|Error::new#3": ["row_fn_unknown__"],
+    "CallMethod||ctx_ok|args[0].call_method": ["row_method_unknown__"],
+    "CallObject||ctx_ok|args[0].call": ["row_callobject__"],
+    "FastSuper||ctx_ok|*": ["super_no_parent", "super_err"],
+    "FastRecurse||recurse_loop|false": ["row_fastrecurse_nonrecursive__"],
+    "FastRecurse||bail|Error::new": ["row_fastrecurse_unknown"],
+    "LoadBlocks||bail|Error::new": ["extends_twice"],
+    "LoadBlocks||ctx_ok|Self::load_blocks": ["extends_missing", "extends_bad_type", "lazy_extends_syntax"],
+    "Include||ctx_ok|*": ["row_include_nonstring__", "row_include_missing__", "row_import_nonstring__"],
+    "CallBlock||ctx_ok|*": ["row_required_block", "block_body"],
+}
+for _op in ("Eq", "Ne", "Lt", "Lte", "Gt", "Gte"):
+    ROW_CASES.update(_cap(_op))
+
+# what the innermost error of a row site has to say (so that the construct really hits the intended row)
+SITE_DETAIL = {
+    "lookup_invalid": "refuses to serialize", "getattr_invalid": "refuses to serialize", "getitem_invalid": "refuses to serialize",
+    "iterate_invalid": "refuses to serialize", "setattr_bad": "can only assign to namespaces",
+    "slice_zero": "step size of 0", "mergekwargs": "", "unpacklist": "not iterable", "unpacklist_arity": "wrong length",
+    "in_contains": "containment check", "notin_contains": "containment check", "cap_in_contains": "containment check",
+    "cap_notin_contains": "containment check", "cap_in_contains_mid": "containment check",
+    "autoescape": "invalid value to autoescape tag", "filter_unknown": "filter bogus is unknown", "filter_fails": "boom filter",
+    "test_unknown": "test bogus is unknown", "test_fails": "boom test", "fn_loop_args": "loop() takes one argument",
+    "fn_loop_recurse": "cannot recurse outside of recursive loop", "fastrecurse_nonrecursive": "cannot recurse outside of recursive loop",
+    "fn_fails": "boom", "fn_unknown": "bogus is unknown", "fn_not_callable": "not callable", "method_unknown": "no method named bogus",
+    "callobject": "not callable", "include_nonstring": "template name was not a string", "import_nonstring": "template name was not a string",
+    "include_missing": "non-existing template", "pushloop": "not iterable", "neg": "", "intdiv_zero": "unable to calculate",
+    "rem_zero": "unable to calculate", "div_zero": "unable to calculate",
+}
+
+# an empty / whitespace-only expression: the error is reported at the very start, whatever is inserted
+UNANCHORED = {"expr_empty", "expr_ws_only"}
 
 V_N = {0: 0, 1: 1, 2: 2, 3: 7, 4: 300, 5: None, 6: 70000}   # 5: fill up to exactly 65535 lines, 6: beyond the quantifier
 
@@ -221,6 +321,7 @@ def evaluate(r, text, tables=None):
 
     failing_ids = do_err(r, q, pending, err_recs, classes)
     check_spanless_table(r, tables, failing_ids)
+    check_vm_rows(r, tables, failing_ids, err_recs)
     if not q.run(r):
         return
     for fn in pending:
@@ -313,7 +414,7 @@ def do_err(r, q, pending, err_recs, classes):
                 r.hist["located"]["range" if e.rs is not None else ("line only" if e.line is not None else "none")] += 1
                 check_error_static(r, case, e, d, rec, in_q)
             # --- the right line: some error of the chain points into the marked failing construct
-            if cls != "planted" and not rec["free"] and in_q and (cfg != "r" or cid.startswith("sl_")):
+            if cls != "planted" and not rec["free"] and in_q and (cfg != "r" or cid.startswith("sl_")) and cid not in UNANCHORED:
                 lo = rec["mline"] + rec["n"]
                 hi_ = lo + rec["mext"]
                 mine = [e for e in rec["errors"] if e.name == rec["shifted"] and e.line is not None]
@@ -322,7 +423,9 @@ def do_err(r, q, pending, err_recs, classes):
                                      + "; ".join(e.brief() for e in rec["errors"]), f"wrong-line:{mine[-1].kind}:{(mine[-1].detail or '')[:40]}")
             # --- shift invariance against the baseline
             be, se = brec["errors"], rec["errors"]
-            if rec["how"] != brec["how"] or len(be) != len(se):
+            if cid in UNANCHORED:
+                pass    # nothing in the source the error could be anchored to: only the static predicates apply
+            elif rec["how"] != brec["how"] or len(be) != len(se):
                 r.oracle_failure(case, f"shift changes the error chain: {brec['how']} {[x.brief() for x in be]} -> {rec['how']} {[x.brief() for x in se]}",
                                  "shift-changes-chain")
             else:
@@ -369,6 +472,42 @@ def do_err(r, q, pending, err_recs, classes):
     if fixed_total and fixed_fail * 10 < fixed_total * 9:
         r.broken.append(f"only {fixed_fail}/{fixed_total} fixed-site cases still produce an error: the case list no longer matches /repo")
     return failing_ids
+
+
+def check_vm_rows(r, tables, failing_ids, err_recs):
+    """every fallible row of the interpreter has a planted construct that fails there, in several contexts"""
+    rows = tables.get("C14_VM_ROWS")
+    if not rows:
+        return
+    cov = {}
+    for row in rows:
+        key = "|".join(row)
+        cl = ROW_CASES.get(key) or ROW_CASES.get("|".join(row[:3]) + "|*")   # `*`: the call is wrapped by instrumentation
+        if cl is None:
+            r.broken.append(f"eval_impl row {key} (a fallible expression of the interpreter loop) has no planted failing construct in C14")
+            continue
+        if isinstance(cl, tuple):
+            cov[key] = cl[0] + ": " + cl[1]
+            continue
+        hit = sorted(i for i in failing_ids if any(i.startswith(p) for p in cl))
+        if not hit:
+            r.broken.append(f"no planted case {cl} fails for eval_impl row {key}")
+        ctxs = sorted({i.split("__", 1)[1] for i in hit if "__" in i})
+        cov[key] = {"failing_cases": len(hit), "contexts": ctxs or ["(fixed site)"]}
+    r.extra["vm_row_coverage"] = cov
+    r.extra["vm_rows"] = len(rows)
+    # the row sites hit the row they are meant for
+    for (cid, cfg), variants in err_recs.items():
+        if cfg != "d" or not (cid.startswith("row_") and cid.endswith("__top")):
+            continue
+        site = cid[4:].split("__", 1)[0]
+        want = SITE_DETAIL.get(site)
+        base = variants.get((0, 0))
+        if not want or base is None or not base[1]["errors"]:
+            continue
+        inner = base[1]["errors"][-1]
+        if want not in (inner.detail or ""):
+            r.broken.append(f"row site {cid} fails with {inner.kind} {inner.detail!r}, not with the intended `{want}`")
 
 
 def check_spanless_table(r, tables, failing_ids):
@@ -625,7 +764,7 @@ def run(r):
     r.assumptions = ["sources shorter than 2^32 bytes (offsets are stored as u32)",
                      "slice::binary_search_by_key meets its documented contract on sorted slices",
                      "shift invariance is claimed for templates of at most 65535 lines (u16 line counter saturates beyond)"]
-    st = r.regen_tables(["C14_CODEGEN_ADDS", "C14_VM_FALLIBLE"])
+    st = r.regen_tables(["C14_CODEGEN_ADDS", "C14_VM_FALLIBLE", "C14_VM_ROWS", "C14_LOC_WIDTHS"])
     r.lean_prove("MJ.Props.C14", "MJ/Audit/C14.lean", extra_targets=["drive_c14"])
     exe = r.cargo_build("c14")
     if exe is None:
